@@ -29,3 +29,21 @@ pub mod math {
         ensures r as int == clog2(x as int),
     { unimplemented!() }
 }
+
+/// memory::add_layout(memory::array_layout::<Word>(t), b): t Words in front of what `b` provides
+pub proof fn lemma_lay_sum(a: Layout, b: Layout, r: Layout, t: int, k: int)
+    requires a.sz() == t * wbytes(), a.al() == wbytes(), t >= 0,
+        lay_wordish(b), lay_ok(b, k),
+        r.sz() == align_up(a.sz(), b.al()) + b.sz(), r.al() == (if a.al() >= b.al() { a.al() } else { b.al() }),
+    ensures lay_ok(r, t + k), lay_wordish(r), r.al() == wbytes(),
+{
+    lemma_layout_sum_arith(t, b.sz() as int, b.al() as int, k);
+}
+
+/// memory::max_layout(a, b) provides what either provides
+pub proof fn lemma_lay_max(a: Layout, b: Layout, r: Layout, ka: int, kb: int)
+    requires lay_wordish(a), lay_wordish(b), lay_ok(a, ka), lay_ok(b, kb),
+        r.sz() == (if a.sz() >= b.sz() { a.sz() } else { b.sz() }), r.al() == (if a.al() >= b.al() { a.al() } else { b.al() }),
+    ensures lay_ok(r, ka), lay_ok(r, kb), lay_wordish(r),
+{
+}
